@@ -17,7 +17,7 @@ demo_file=$(python3 -c "import json;print(json.load(open('$src/meta.json'))['dem
 cp "$src/$demo_file" "$demo_dir/"
 # demo passes without the mutation
 go test -vet=off -count=1 -timeout 300s -run 'Demo' ./$demo_pkg > /tmp/seedwt/$id-$m.demo_clean.log 2>&1; demo_clean=$?
-git apply "$src/patch.diff" || { echo "patch does not apply"; exit 2; }
+git apply "$src/patch.diff" 2>/dev/null || git apply --3way "$src/patch.diff" || { echo "patch does not apply"; exit 2; }
 go build ./... > /tmp/seedwt/$id-$m.build.log 2>&1 && go test -vet=off -count=1 -run '^$' ./... >> /tmp/seedwt/$id-$m.build.log 2>&1; build=$?
 go test -vet=off -count=1 -timeout 300s -run 'Demo' ./$demo_pkg > /tmp/seedwt/$id-$m.demo_mut.log 2>&1; demo_mut=$?
 rm -f "$demo_dir/$demo_file"
